@@ -113,8 +113,9 @@ func c18Check(c C18Case) (r evid.Result) {
 				return r
 			}
 			if rep2.ScheduleBroken {
-				r.Violation = evid.Viol("C18/schedule", "query %s (%s): not all containers were opened concurrently", c.Query, what)
-				return r
+				// Not all opens are issued concurrently (no property demands that): the completion
+				// order is not owned, repetitions still have to agree.
+				r.Class(true, "completion-order-not-owned")
 			}
 			txt, ns, nm := canonResult(data)
 			nSeries, nMulti = ns, nm
